@@ -297,6 +297,9 @@ class AdmtEval(SymEval):
             return C(1)
         if f in ('np.full', 'numpy.full') and len(n.args) == 2:
             return self.ev(n.args[1])
+        if f in ('np.asarray', 'numpy.asarray', 'np.array', 'numpy.array', 'np.asanyarray', 'np.ascontiguousarray') and n.args \
+                and not isinstance(n.args[0], (ast.List, ast.Tuple)):
+            return self.ev(n.args[0])
         return super().call(n)
 
     def ev(self, n):
@@ -314,6 +317,14 @@ class AdmtEval(SymEval):
             return L('matmul(%s,%s)' % (ka, kb))
         if isinstance(n, ast.BinOp) and isinstance(n.op, ast.Mult):
             return self.mul(self.ev(n.left), self.ev(n.right))
+        if isinstance(n, ast.BinOp) and isinstance(n.op, ast.Div):
+            a, b = self.ev(n.left), self.ev(n.right)
+            if self._has(a, 'OP:') and not self._has(b, 'OP:') and not self._scalar(b):
+                # D / c[:, np.newaxis] divides the rows of D by c; D / c (1D) divides its columns
+                if self._has(b, 'ROW'):
+                    return a / b.subst({'ROW': C(1)})
+                return a / b * L('COLSCALED')
+            return a / b
         return super().ev(n)
 
 
